@@ -209,10 +209,14 @@ type CondGen struct {
 func (g *CondGen) pathTo(t string) *Operand {
 	// pick an attribute (present or absent) preferably of type t
 	cands := []Operand{}
+	below := []Operand{} // nested members that are scalars (NULL included): a path may try to go on below them
 	var walk func(root []byte, steps []Step, v AV, depth int)
 	walk = func(root []byte, steps []Step, v AV, depth int) {
 		if t == "" || v.T == t {
 			cands = append(cands, Operand{Kind: "path", Root: root, Steps: append([]Step{}, steps...)})
+		}
+		if depth >= 1 && v.T != "L" && v.T != "M" {
+			below = append(below, Operand{Kind: "path", Root: root, Steps: append([]Step{}, steps...)})
 		}
 		if depth >= 3 {
 			return
@@ -230,6 +234,16 @@ func (g *CondGen) pathTo(t string) *Operand {
 	}
 	for _, kv := range g.item {
 		walk(kv.K, nil, kv.V, 0)
+	}
+	if len(below) > 0 && g.r.Chance(12) {
+		// one step further than the document goes: names nothing, whatever the scalar is
+		o := pick(g.r, below)
+		if g.r.Bool() {
+			o.Steps = append(o.Steps, Step{Key: []byte(pick(g.r, []string{"k", "owner", "x"}))})
+		} else {
+			o.Steps = append(o.Steps, Step{IsIdx: true, Idx: g.r.Intn(2)})
+		}
+		return &o
 	}
 	if len(cands) > 0 && g.r.Chance(80) {
 		o := pick(g.r, cands)
